@@ -44,7 +44,22 @@ MENU = [
     ('partox',   {'CH4': -1, 'O2': -1.5, 'CO': 1, 'H2O': 2}),
     ('etreform', {'Ethanol': -1, 'H2O': -1, 'CO': 2, 'H2': 4}),
     ('elec',     {'H2O': -1, 'H2': 1, 'O2': 0.5}),
+    # ---- thorough tier only (index >= MENU_QUICK_N): more fractional / multi-product stoichiometries
+    ('glucreform', {'Glucose': -1, 'H2O': -6, 'CO2': 6, 'H2': 12}),
+    ('acetcomb',   {'AceticAcid': -1, 'O2': -2, 'CO2': 2, 'H2O': 2}),
+    ('dryreform',  {'CH4': -1, 'CO2': -1, 'CO': 2, 'H2': 2}),
+    ('acetmeth',   {'AceticAcid': -1, 'CH4': 1, 'CO2': 1}),
+    ('ethsyn',     {'CO': -2, 'H2': -4, 'Ethanol': 1, 'H2O': 1}),
+    ('halfferm',   {'Glucose': -0.5, 'Ethanol': 1, 'CO2': 1}),
+    ('etpartox',   {'Ethanol': -1, 'O2': -2, 'CO': 2, 'H2O': 3}),
+    ('ch4mixed',   {'CH4': -1, 'O2': -1.75, 'CO': 0.5, 'CO2': 0.5, 'H2O': 2}),
+    ('glucacid',   {'Glucose': -1, 'AceticAcid': 2, 'CO': 2, 'H2': 2}),
+    ('etmixed',    {'Ethanol': -1, 'O2': -2.5, 'AceticAcid': 0.25, 'CO2': 1.5, 'H2O': 2.5}),
 ]
+MENU_QUICK_N = 14            # the quick tier enumerates MENU[:MENU_QUICK_N]; the thorough tier the whole menu
+
+def menu_range(tier):
+    return range(MENU_QUICK_N if tier == 'quick' else len(MENU))
 MENU_INDEX = {name: i for i, (name, _) in enumerate(MENU)}
 
 for _name, _d in MENU:       # the menu itself must be atomically balanced (harness precondition)
@@ -69,6 +84,9 @@ def tags_of(ri, tag):
     for k in MENU[ri][1]:
         p = NAT_PHASE[k]
         if tag == 'wg' and k == 'H2O': p = 'g'
+        elif tag == 'ws' and k == 'H2O': p = 's'              # water as ice
+        elif tag == 'gl' and k == 'Glucose': p = 'l'          # dissolved glucose
+        elif tag == 'vap' and p == 'l': p = 'g'               # every liquid as vapour
         d[k] = p
     return d
 
